@@ -82,6 +82,10 @@ def oracle(case, obs):
 
 
 def signature(case, obs, msg):
+    import re
+    m = re.match(r"request #(\d+) to http://proxy\.example:3128 carries", msg or "")
+    if m and case["kind"] == "proxy":
+        return {"kind": "redirect-to-the-forwarding-proxy-itself"}
     return {"msg": (msg or "")[:50], "kind": case["kind"]}
 
 
@@ -159,6 +163,14 @@ def cases(rng, tier):
                                 "script": [{"status": code, "to": ["http", "b.example", 8080, "/final"], "form": "abs"},
                                            {"status": 302, "to": ["http", "c.example", None, "/third"], "form": "abs"},
                                            {"status": 200, "to": None, "form": "abs"}, {"status": 200, "to": None, "form": "abs"}]})
+    # through a forwarding proxy the pool in hand is the proxy's: a redirect to the proxy's own address
+    for code in (301, 302, 303, 307, 308):
+        for hk in ("dict", "hd", "default"):
+            for form in ("abs", "schemerel"):
+                out.append({"kind": "proxy", "redirect": True, "assert_same_host": False, "start": A + ["/start"], "method": "GET", "body": False,
+                            "headers": [["Authorization", "s1"], ["Cookie", "c=1"], ["X-Keep", "1"]], "hkind": hk, "kw": ["retry", {"total": 5, "redirect": 5}], "pool": ["none"],
+                            "script": [{"status": code, "to": ["http", "proxy.example", 3128, "/final"], "form": form}, {"status": 200, "to": None, "form": "abs"},
+                                       {"status": 200, "to": None, "form": "abs"}]})
     # a start URL written without its scheme ("host/path": urllib3 reads it as http) x every Location form, first hop to another origin
     for hk in ("dict", "hd", "default"):
         for code in (301, 302, 303, 307, 308):
